@@ -20,10 +20,10 @@ ASSUMPTIONS = ['placement by .endpoints(p, q) (the only placement every symbol c
                'electrical comparisons are skipped when the model netlist is ill-posed or ill-conditioned (e.g. closed switches of 1e-12 Ohm)']
 
 
-def translate(program, r: R, render=False, sub='translate'):
+def translate(program, r: R, render=False, sub='translate', translate_after=None):
     from CircuitCalculator.SimpleCircuit.DiagramTranslator import circuit_translator
     with r.lib(sub):
-        sch = schem.build(program, render=render)
+        sch = schem.build(program, render=render, translate_after=translate_after)
         circuit = circuit_translator(sch)
         if any(it['sym'] == 'ground' for it in program['items']):
             # the parser's own notion of the reference must be the node the ground symbol sits on
@@ -123,9 +123,11 @@ def check_drawing(case, r: R):
         r.cls('junction>=3')
     has_src = any(it['sym'] in schem.SOURCES_V + schem.SOURCES_I for it in syms)
     r.nt((nwire >= 2 or junction) and has_src)
-    circuit = translate(prog, r, render=case.get('render', False))
+    circuit = translate(prog, r, render=case.get('render', False), translate_after=case.get('translate_after'))
     if case.get('render'):
         r.cls('rendered')
+    if case.get('translate_after') is not None and not case.get('render'):
+        r.cls('grown-after-a-first-translation')
     if circuit is None:
         return
     cls2lab, spec = structural(prog, circuit, r)
@@ -209,7 +211,10 @@ def drawing_case(draw):
           'turns': draw(st.sampled_from([1, 2, 3])), 'dx': draw(st.sampled_from([1.0, -2.5, 0.25, 7.0])), 'dy': draw(st.sampled_from([0.0, 3.0, -1.75])),
           'factor': draw(st.sampled_from([2.0, 2.5, 3.0, 1.5])), 'fractions': draw(st.lists(st.sampled_from([0.5, 0.25, 0.75]), min_size=1, max_size=4)),
           'keys': draw(st.lists(st.sampled_from(range(8)), min_size=4, max_size=12))}
-    return {'program': prog, 'ws': [0.0, w0], 'tr': tr, 'render': draw(st.sampled_from([False] * 7 + [True]))}
+    ta = draw(st.sampled_from([None, None, 'x']))
+    if ta == 'x':
+        ta = draw(st.integers(1, max(1, len(prog['items']) - 1)))
+    return {'program': prog, 'ws': [0.0, w0], 'tr': tr, 'render': draw(st.sampled_from([False] * 7 + [True])), 'translate_after': ta}
 
 
 TESTS = [
